@@ -186,6 +186,7 @@ class Tr:
         self.wrappers = {}  # alias -> module class
         self.wrapper_rows = []   # (alias, module class, toggle_dims)
         self.forms: list[tuple[str, bool]] = []    # (class, composed through a ModuleWrapper alias) in order of translation
+        self.seed_disallowed: set[str] = set()
         for st in self.tree.body:
             if (isinstance(st, ast.Assign) and isinstance(st.value, ast.Call)
                     and ast.unparse(st.value.func) == "ModuleWrapper" and st.value.args):
@@ -257,44 +258,70 @@ class Tr:
         raise Untranslatable(f"enum expression `{ast.unparse(node)}`")
 
     # ---- class bodies ----------------------------------------------------------------------------
+    SEED_ALLOWED_CALLS = {"tuple", "map", "ord", "str", "list", "int"}
+
+    def _expand_calls(self, tree, cls: str, node: ast.AST, depth=0) -> list[ast.AST]:
+        """the nodes of an expression plus those of the bodies of the module-level functions / methods of the class it calls"""
+        nodes = list(ast.walk(node))
+        if depth > 2:
+            return nodes
+        funcs = {n.name: n for n in tree.body if isinstance(n, ast.FunctionDef)}
+        meths = class_methods(tree, cls)
+        for n in list(nodes):
+            if isinstance(n, ast.Call):
+                target_fn = None
+                if isinstance(n.func, ast.Name) and n.func.id in funcs:
+                    target_fn = funcs[n.func.id]
+                elif (isinstance(n.func, ast.Attribute) and isinstance(n.func.value, ast.Name) and n.func.value.id in ("self", "cls")
+                      and n.func.attr in meths):
+                    target_fn = meths[n.func.attr]
+                if target_fn is not None:
+                    for st in target_fn.body:
+                        if isinstance(st, ast.Expr) and isinstance(st.value, ast.Constant):
+                            continue
+                        nodes.extend(self._expand_calls(tree, cls, st, depth + 1))
+        return nodes
+
     def seed_fields(self, tree, qual: str, target: str | None) -> tuple[str, bool]:
-        """(Lean list of sample fields of the seed expression, seed is passed on to every `self.mask_func` call).
-        The seed expression may live in the method or in a private method it calls; it must be guarded by `use_seed`
-        (`None if not use_seed else …`, `… if use_seed else None`, or `if not use_seed: return None`)."""
+        """(Lean list of sample fields of the seed derivation, seed is passed on to every `self.mask_func` call).
+        The derivation is the non-`None` side of the `use_seed` guard (`None if not use_seed else D`, `D if use_seed else None`,
+        or `if not use_seed: return None; return D` in a private method); helpers it calls (module-level functions, methods of
+        the class) are followed.  Every call in the derivation must be on the allow-list (`tuple`, `map`, `ord`, `str`, …):
+        anything else — `hash` (salted per process), `id`, `random`, … — is recorded in `self.seed_disallowed`, which the
+        bridge requires to be empty."""
+        cls = qual.split(".")[0]
         fns = reachable_methods(tree, qual)
         found = []
         for fn in fns:
-            parents = {}
-            for p_ in ast.walk(fn):
-                for c_ in ast.iter_child_nodes(p_):
-                    parents[c_] = p_
             for node in ast.walk(fn):
-                if not is_seed_expr(node):
-                    continue
-                guarded = False
-                q = node
-                while q in parents:
-                    par = parents[q]
-                    if isinstance(par, ast.IfExp) and "use_seed" in ast.unparse(par.test):
-                        other = par.body if par.orelse is q else par.orelse
-                        neg = isinstance(par.test, ast.UnaryOp) and isinstance(par.test.op, ast.Not)
-                        if ast.unparse(other) == "None" and ((par.orelse is q) == neg):
-                            guarded = True
-                    q = par
-                if not guarded:
-                    # `if not self.use_seed: return None` before a `return <seed expression>` in a helper
-                    for st in fn.body:
-                        if (isinstance(st, ast.If) and "use_seed" in ast.unparse(st.test) and isinstance(st.test, ast.UnaryOp)
-                                and len(st.body) == 1 and isinstance(st.body[0], ast.Return) and not st.orelse
-                                and ast.unparse(st.body[0].value) == "None"):
-                            guarded = True
-                if not guarded:
-                    raise Untranslatable(f"seed expression of {qual} is not guarded by use_seed")
-                found.append(node)
+                if isinstance(node, ast.IfExp) and "use_seed" in ast.unparse(node.test):
+                    neg = isinstance(node.test, ast.UnaryOp) and isinstance(node.test.op, ast.Not)
+                    none_side, other = (node.body, node.orelse) if neg else (node.orelse, node.body)
+                    if ast.unparse(none_side) != "None":
+                        raise Untranslatable(f"seed conditional of {qual}: `{ast.unparse(node)[:80]}`")
+                    found.append(other)
+            for i, st in enumerate(fn.body):
+                if (isinstance(st, ast.If) and "use_seed" in ast.unparse(st.test) and isinstance(st.test, ast.UnaryOp)
+                        and len(st.body) == 1 and isinstance(st.body[0], ast.Return) and not st.orelse
+                        and ast.unparse(st.body[0].value) == "None"):
+                    rets = [r for r in fn.body[i + 1:] if isinstance(r, ast.Return)]
+                    if len(rets) != 1:
+                        raise Untranslatable(f"seed helper of {qual}")
+                    found.append(rets[0].value)
         if len(found) != 1:
-            raise Untranslatable(f"{len(found)} seed expressions in {qual}")
+            raise Untranslatable(f"{len(found)} seed derivations in {qual}")
+        nodes = self._expand_calls(tree, cls, found[0])
+        helper_names = {n.name for n in tree.body if isinstance(n, ast.FunctionDef)} | set(class_methods(tree, cls))
+        for n in nodes:
+            if isinstance(n, ast.Call):
+                fname = ast.unparse(n.func)
+                base = fname.split(".")[-1] if fname.startswith(("self.", "cls.")) else fname
+                if base not in self.SEED_ALLOWED_CALLS and base not in helper_names:
+                    self.seed_disallowed.add(f"{qual}:{fname}")
+            if isinstance(n, ast.Name) and n.id in ("hash", "id", "random", "time", "os", "uuid"):
+                self.seed_disallowed.add(f"{qual}:{n.id}")
         fields = []
-        for node in ast.walk(found[0]):
+        for node in nodes:
             if isinstance(node, ast.Subscript) and ast.unparse(node.value) == "sample":
                 k = node.slice.value if isinstance(node.slice, ast.Constant) else None
                 if k == "filename":
@@ -303,7 +330,7 @@ class Tr:
                     fields.append((node.lineno, node.col_offset, ".sliceNo"))
                 else:
                     raise Untranslatable(f"seed mentions sample[{k!r}]")
-        fields = [f for _, _, f in sorted(fields)]
+        fields = [f for _, _, f in sorted(set(fields))]
         passed = True
         for fn in fns:
             for node in ast.walk(fn):
@@ -937,6 +964,7 @@ def maskSeed (useSeed : Bool) : Option (List SeedField) := seedOf useSeed [.file
 def bodySeed (useSeed : Bool) : Option (List SeedField) := seedOf useSeed [.filename]
 def splitSeed (useSeed : Bool) : Option (List SeedField) := seedOf useSeed [.filename, .sliceNo]
 def crop_seed_fields : List SeedField := [.filename]
+def seed_disallowed_calls : List String := []
 def build_supervised (c : Config) : List Stage := Pipeline.buildSupervisedNF c
 def build (c : Config) : List Stage := Pipeline.buildNF c
 def stage_forms_supervised : FormTable := supervisedForms
@@ -1069,7 +1097,9 @@ def _c08_extra():
             + f"/-- translated from `{SSL}`:`MaskSplitter.forward` -/\n"
             + seed_def("splitSeed", sfields, True)
             + f"/-- translated from `{MT}`:`CropKspace.__call__` (random-crop seed) -/\n"
-            + f"def crop_seed_fields : List SeedField := {cfields}\n\n"
+            + f"def crop_seed_fields : List SeedField := {cfields}\n"
+            + "/-- calls in the four seed derivations that are not on the allow-list (tuple, map, ord, str, list, int) -/\n"
+            + "def seed_disallowed_calls : List String := [" + ", ".join(f'"{x}"' for x in sorted(tr.seed_disallowed)) + "]\n\n"
             + f"/-- translated from `{MT}`:`build_supervised_mri_transforms` (statement order, guards, constructor arguments) -/\n"
             + f"def build_supervised (c : Config) : List Stage :=\n  {sup}\n\n"
             + f"/-- translated from `{MT}`:`build_mri_transforms` -/\n"
@@ -1872,6 +1902,9 @@ class StageExec:
         return {n.name for n in cls.body if isinstance(n, ast.FunctionDef)}
 
     def seed_value(self, node: ast.AST):
+        if isinstance(node, ast.IfExp) and "use_seed" in ast.unparse(node.test) and "None" in (
+                ast.unparse(node.body), ast.unparse(node.orelse)) and "sample[" in ast.unparse(node):
+            return Meta("seed")
         if isinstance(node, ast.IfExp) and any(is_seed_expr(n) for n in ast.walk(node)) and "None" in (
                 ast.unparse(node.body), ast.unparse(node.orelse)):
             return Meta("seed")
